@@ -87,6 +87,11 @@ class _DispRun:
             self.scripts[json.dumps(row["callee"])] = row
         self.counts = {}
         self.wrappers = {}
+        # "drop_at": k — from op k on nobody keeps a dispatcher: every (un)registration, also the re-entrant
+        # ones, asks `create_dispatcher(protocol)` again and lets the result go (k = 0: never kept at all)
+        self.drop_at = case.get("drop_at")
+        self.asked = set()       # instances a dispatcher was asked for (the harness may not hold it any more)
+        self.dropped = False
         self.current = None      # (pid, kind, payload, calls) of the running dispatch
         run = self
 
@@ -126,7 +131,12 @@ class _DispRun:
 
     def request(self, pid, name, kind, hid):
         """a (un)registration on instance pid through its wrapper, as a result string"""
-        w = self.wrappers.get(pid)
+        if self.dropped:
+            if pid not in self.asked:
+                return "nodispatcher"
+            w = create_dispatcher(self.protos[pid])     # asked again, not retained beyond this request
+        else:
+            w = self.wrappers.get(pid)
         if w is None:
             return "nodispatcher"
         if name in ("reg", "register"):
@@ -179,15 +189,21 @@ class _DispRun:
         for i, op in enumerate(ops):
             if churn and i == churn["at"]:
                 self.churn(churn["n"])
+            if self.drop_at is not None and i >= self.drop_at and not self.dropped:
+                self.dropped = True
+                self.wrappers.clear()
             name, p = op[0], op[1]
             if name == "create":
-                existed = p in self.wrappers
+                existed = p in self.asked
                 w = create_dispatcher(self.protos[p])
-                if existed and w is not self.wrappers[p]:
+                if p in self.wrappers and w is not self.wrappers[p]:
                     results.append(["rewrapped", True])
                 else:
                     results.append(["created", existed])
-                self.wrappers[p] = w
+                self.asked.add(p)
+                if not self.dropped:
+                    self.wrappers[p] = w
+                del w
             elif name in ("register", "unregister"):
                 results.append(self.request(p, name, op[2], op[3]))
             elif name == "dispatch":
@@ -428,7 +444,9 @@ class C15(Check):
                   "instances are isolated. Tied to the code by differential execution on real protocol instances.")
     rule = ("histories of 5-60 ops (create / register / unregister / dispatch) over 1-3 real protocol instances, the 5 kinds "
             "and 2-7 handler closures whose k-th invocation performs scripted (un)registrations on its instance and returns "
-            "CONTINUE / INTERRUPT / None (own methods scripted too); thorough: every history of <= 5 ops over a 10-op "
+            "CONTINUE / INTERRUPT / None (own methods scripted too); in 35% of the histories nobody keeps the dispatcher "
+            "(from the start, or from some op on): every request, also the re-entrant ones, goes through a fresh "
+            "create_dispatcher(protocol) whose result is let go at once; thorough: every history of <= 5 ops over a 10-op "
             "alphabet x 2 behaviours, <= 4 ops over two instances; non-trivial = a dispatch over a chain of >= 3 stopped by "
             "an INTERRUPT strictly inside, with a successful re-entrant (un)registration in the same dispatch")
     assumptions = ["handlers do not raise and do not call the protocol's methods recursively (a re-entrant unregister of an "
@@ -437,7 +455,9 @@ class C15(Check):
     technique = ("Lean 4 theorems about a hand-written executable model (induction over operation histories; every handler "
                  "behaviour as a function of the invocation number, incl. scripted re-entrant requests) + differential "
                  "correspondence of model and real classes + direct predicate on the implementation's log to find failing inputs")
-    level_note = ("Not covered: handlers that raise or that call the protocol's methods recursively (nested dispatch). ")
+    level_note = ("Not covered: handlers that raise or that call the protocol's methods recursively (nested dispatch). "
+                  "Whether anybody keeps the object returned by create_dispatcher is not a notion of the model (create is "
+                  "idempotent there); the histories in which nobody does are compared with the same model. ")
     modelled = ["gradysim/protocol/plugin/dispatcher.py"]
     quick_n = 1500
     thorough_n = 40000
@@ -455,10 +475,19 @@ class C15(Check):
                 c["ops"] = c["ops"] + [["create", insts[0]], ["dispatch", insts[0], "timer"],
                                        ["dispatch", insts[0], "finish"]]
                 c["label"] += "/churn"
+            r2 = random.Random(stable_hash("disp-keep", self.prop, seed, i))
+            x = r2.random()
+            if x < 0.35:
+                # nobody keeps the dispatcher (`create_dispatcher(p).register_…(h)` each time): never (2/3)
+                # or only up to some point of the history (a holder that goes away)
+                c["drop_at"] = 0 if x < 0.23 else r2.randrange(1, len(c["ops"]) + 1)
+                c["label"] += "/asked-again"
             yield c
         if tier == "thorough":
             yield from enum_disp(5, 0)
             yield from enum_disp(4, 1)
+            for c in enum_disp(4, 0):
+                yield dict(c, drop_at=0, label="enum/asked-again")
             yield from enum_disp_two(4)
 
     def run_impl(self, case):
@@ -479,7 +508,7 @@ class C15(Check):
         return disp_interesting(case, impl)
 
     def key(self, case, impl):
-        return json.dumps([case["ops"], case.get("beh", [])], sort_keys=True)
+        return json.dumps([case["ops"], case.get("beh", []), case.get("drop_at")], sort_keys=True)
 
     def sample(self, case, impl):
         return {"label": case.get("label"), "beh": case.get("beh", [])[:4], "ops": case["ops"][:20],
@@ -491,10 +520,15 @@ class C15(Check):
         inc("histories")
         inc("ops", len(case["ops"]))
         inc("instances_total", len({op[1] for op in case["ops"]}))
-        for op, res in zip(case["ops"], impl["results"]):
+        drop = case.get("drop_at")
+        if drop is not None and drop < len(case["ops"]):
+            inc("histories_dispatcher_not_kept" if drop == 0 else "histories_dispatcher_dropped_midway")
+        for i, (op, res) in enumerate(zip(case["ops"], impl["results"])):
             inc("op_" + op[0])
             if op[0] in ("register", "unregister"):
                 inc(f"{op[0]}_{res}")
+                if drop is not None and i >= drop and res == "ok":
+                    inc(f"{op[0]}_ok_through_a_dispatcher_asked_again")
             elif op[0] == "create":
                 inc("create_again" if res[1] else "create_first")
             elif op[0] == "dispatch":
@@ -517,6 +551,13 @@ class C15(Check):
             for i in range(len(best["ops"]) - 1, -1, -1):
                 cand = copy.deepcopy(best)
                 del cand["ops"][i]
+                if cand.get("drop_at") is not None and i < cand["drop_at"]:
+                    cand["drop_at"] -= 1    # the dispatcher is let go before the same op as before
+                if still_fails(cand):
+                    best, changed = cand, True
+            if best.get("drop_at"):
+                cand = copy.deepcopy(best)
+                cand["drop_at"] = 0
                 if still_fails(cand):
                     best, changed = cand, True
             for i in range(len(best.get("beh", [])) - 1, -1, -1):
@@ -540,14 +581,25 @@ class C15(Check):
 # C17 — random mobility plugin
 # ================================================================================================
 class DrawSource:
-    """serves a prescribed list of draws, then a seeded stream; remembers what it handed out"""
+    """serves a prescribed list of draws, then a seeded stream; remembers what it handed out.
+    While `channel` is set (another plugin of the same process is being driven) the draws come from
+    that channel's own prescribed list / stream and are counted there."""
 
-    def __init__(self, prescribed, seed=0):
+    def __init__(self, prescribed, seed=0, side=()):
         self.prescribed = list(prescribed)
         self.rng = random.Random(seed)
         self.values = []
+        self.channel = None
+        self.side = [{"prescribed": list(p), "rng": random.Random(stable_hash("side-draws", seed, j)), "values": []}
+                     for j, p in enumerate(side)]
 
     def __call__(self):
+        if self.channel is not None:
+            ch = self.side[self.channel]
+            i = len(ch["values"])
+            v = ch["prescribed"][i] if i < len(ch["prescribed"]) else ch["rng"].random()
+            ch["values"].append(v)
+            return v
         i = len(self.values)
         v = self.prescribed[i] if i < len(self.prescribed) else self.rng.random()
         self.values.append(v)
@@ -619,9 +671,27 @@ def chain_probe(plugin):
     return len(ch) - 1 if isinstance(ch, list) else None
 
 
+def make_config(cfg, how):
+    """the RandomMobilityConfig of a case; how = "default": the plugin's default argument is used"""
+    if how == "default":
+        return None
+    return RandomMobilityConfig(x_range=(bitsf(cfg["x"][0]), bitsf(cfg["x"][1])),
+                                y_range=(bitsf(cfg["y"][0]), bitsf(cfg["y"][1])),
+                                z_range=(bitsf(cfg["z"][0]), bitsf(cfg["z"][1])),
+                                tolerance=bitsf(cfg["tol"]))
+
+
 def trip_run_impl(case):
+    """`case["peers"]` (optional): further plugins of the same process, each on its own protocol instance with
+    its own provider (the nodes of a swarm), built from the same configuration — the very same object
+    ("shared": a module-level constant), an equal one each ("equal") or the constructor's default argument
+    ("default") — and driven by their own little histories in between the ops of the first plugin."""
     cfg = case["cfg"]
-    src = DrawSource([bitsf(b) for b in case["draws"]], seed=stable_hash("trip-extra", len(case["draws"])))
+    peers = case.get("peers") or {}
+    n_peers = peers.get("n", 0)
+    how = peers.get("config", "own")
+    src = DrawSource([bitsf(b) for b in case["draws"]], seed=stable_hash("trip-extra", len(case["draws"])),
+                     side=[[bitsf(b) for b in d] for d in (peers.get("draws", []) + [[]] * n_peers)[:n_peers]])
     provider = RecProvider(0)
     results = []
     events = []     # chronological: ["cmd", index into provider.mobility] | ["begin", act] | ["end", act, outcome]
@@ -632,13 +702,69 @@ def trip_run_impl(case):
         send(command)
     provider.send_mobility_command = recording_send
     hooks = 0
+
+    def build(proto, config):
+        return RandomMobilityPlugin(proto) if config is None else RandomMobilityPlugin(proto, config)
+
+    def step(plugin, proto, prov, op):
+        """one op on one plugin: (ret, commands it made the provider of that plugin receive, own calls)"""
+        n0, own0 = len(prov.mobility), proto.telemetry_calls
+        ret = None
+        try:
+            name = op[0]
+            if name == "initiate":
+                plugin.initiate_random_trip()
+            elif name == "finish":
+                plugin.finish_random_trip()
+            elif name == "tel":
+                proto.handle_telemetry(Telemetry(current_position=bitsv3(op[1])))
+            elif name == "travel":
+                ret = v3bits(plugin.travel_to_random_waypoint())
+            elif name == "ongoing":
+                ret = plugin.trip_ongoing
+                if not isinstance(ret, bool):
+                    ret = ["not-a-bool", repr(ret)]
+            elif name == "target":
+                t = plugin.current_target
+                ret = None if t is None else v3bits(t)
+            elif name == "hook":
+                create_dispatcher(proto).register_handle_telemetry(make_hook(op[1]))
+            else:
+                raise ValueError(f"unknown op {op}")
+        except Exception as e:
+            ret = "crash:" + type(e).__name__
+        return ret, [cmd_obs(c) for c in prov.mobility[n0:]], proto.telemetry_calls - own0
+
     with patched_draws(src):
+        # construction order: `main_at` peers first, then the plugin of the history, then the other peers
+        shared = make_config(cfg, how) if how in ("shared", "default") else None
+        main_at = min(peers.get("main_at", 0), n_peers)
+        fleet = []      # (plugin, proto, provider) of the peers
+
+        def build_peer(j):
+            prov = RecProvider(j + 1)
+            pr = _TripProto.instantiate(prov)
+            fleet.append((build(pr, shared if how in ("shared", "default") else make_config(cfg, "own")), pr, prov))
+        for j in range(main_at):
+            build_peer(j)
         proto = _TripProto.instantiate(provider)
-        config = RandomMobilityConfig(x_range=(bitsf(cfg["x"][0]), bitsf(cfg["x"][1])),
-                                      y_range=(bitsf(cfg["y"][0]), bitsf(cfg["y"][1])),
-                                      z_range=(bitsf(cfg["z"][0]), bitsf(cfg["z"][1])),
-                                      tolerance=bitsf(cfg["tol"]))
-        plugin = RandomMobilityPlugin(proto, config)
+        config = shared if how in ("shared", "default") else make_config(cfg, "own")
+        plugin = build(proto, config)
+        for j in range(main_at, n_peers):
+            build_peer(j)
+        peer_log = [{"ops": [], "results": []} for _ in range(n_peers)]
+        peer_ops = [po for po in peers.get("ops", []) if 0 <= po[1] < n_peers]
+
+        def run_peer_ops(i, last=False):
+            for at, j, op in peer_ops:
+                if at == i or (last and at > i):
+                    src.channel = j
+                    try:
+                        ret, cmds, own = step(*fleet[j], op)
+                    finally:
+                        src.channel = None
+                    peer_log[j]["ops"].append(op)
+                    peer_log[j]["results"].append({"ret": ret, "cmds": cmds, "own": own})
 
         def make_hook(scripts):
             """a foreign telemetry handler whose k-th invocation calls the plugin re-entrantly"""
@@ -658,40 +784,24 @@ def trip_run_impl(case):
                 return DispatchReturn.CONTINUE
             return hook
 
-        for op in case["ops"]:
-            n0, own0, e0 = len(provider.mobility), proto.telemetry_calls, len(events)
-            ret = None
-            try:
-                name = op[0]
-                if name == "initiate":
-                    plugin.initiate_random_trip()
-                elif name == "finish":
-                    plugin.finish_random_trip()
-                elif name == "tel":
-                    proto.handle_telemetry(Telemetry(current_position=bitsv3(op[1])))
-                elif name == "travel":
-                    ret = v3bits(plugin.travel_to_random_waypoint())
-                elif name == "ongoing":
-                    ret = plugin.trip_ongoing
-                    if not isinstance(ret, bool):
-                        ret = ["not-a-bool", repr(ret)]
-                elif name == "target":
-                    t = plugin.current_target
-                    ret = None if t is None else v3bits(t)
-                elif name == "hook":
-                    create_dispatcher(proto).register_handle_telemetry(make_hook(op[1]))
-                    hooks += 1
-                else:
-                    raise ValueError(f"unknown op {op}")
-            except Exception as e:
-                ret = "crash:" + type(e).__name__
-            cmds = [cmd_obs(c) for c in provider.mobility[n0:]]
+        for i, op in enumerate(case["ops"]):
+            run_peer_ops(i)
+            n0, e0 = len(provider.mobility), len(events)
+            ret, cmds, own = step(plugin, proto, provider, op)
+            if op[0] == "hook" and ret is None:
+                hooks += 1
             h = chain_probe(plugin)
-            res = {"ret": ret, "cmds": cmds, "own": proto.telemetry_calls - own0, "h": None if h is None else h - hooks}
+            res = {"ret": ret, "cmds": cmds, "own": own, "h": None if h is None else h - hooks}
             if case.get("hooked"):
                 res["events"] = [(["cmd", cmds[e[1] - n0]] if e[0] == "cmd" else e) for e in events[e0:]]
             results.append(res)
-    return {"results": results, "used": len(src.values), "draws": [fbits(v) for v in src.values]}
+        run_peer_ops(len(case["ops"]), last=True)
+    out = {"results": results, "used": len(src.values), "draws": [fbits(v) for v in src.values]}
+    if n_peers:
+        for j, log in enumerate(peer_log):
+            log["used"] = len(src.side[j]["values"])
+        out["peers"] = peer_log
+    return out
 
 
 def sqdist(a, b):
@@ -699,14 +809,24 @@ def sqdist(a, b):
 
 
 def trip_oracle(case, impl):
-    """C17 read directly off the commands / query results of the implementation."""
+    """C17 read directly off the commands / query results of the implementation: of the plugin of the
+    history and, each on its own, of every other plugin that was built from the same configuration."""
+    fails = trip_oracle_one(case["cfg"], case["ops"], impl["results"], impl["used"], bool(case.get("hooked")), "")
+    how = (case.get("peers") or {}).get("config")
+    for j, peer in enumerate(impl.get("peers", [])):
+        fails += trip_oracle_one(case["cfg"], peer["ops"], peer["results"], peer["used"], False,
+                                 f"plugin #{j + 1} (own protocol and provider, {how} configuration): ")
+    return fails
+
+
+def trip_oracle_one(cfg, ops, results, used, hooked, who):
+    """the property for one plugin configured with cfg, on its ops and what they made its provider receive"""
     fails = []
-    cfg = case["cfg"]
     box = [sorted((bitsf(cfg[a][0]), bitsf(cfg[a][1]))) for a in "xyz"]
     tol = bitsf(cfg["tol"])
     ongoing, target, ever = False, None, False
     total_cmds = 0
-    for i, (op, res) in enumerate(zip(case["ops"], impl["results"])):
+    for i, (op, res) in enumerate(zip(ops, results)):
         name, ret, cmds = op[0], res["ret"], res["cmds"]
         total_cmds += len(cmds)
         if isinstance(ret, str) and ret.startswith("crash:"):
@@ -738,7 +858,7 @@ def trip_oracle(case, impl):
         elif name == "hook":
             if cmds:
                 fails.append(("C17:unexpected-command", f"op {i}: registering a foreign handler sent commands"))
-        elif name == "tel" and case.get("hooked"):
+        elif name == "tel" and hooked:
             # foreign handlers may call the plugin re-entrantly: judge every command at its place in the
             # chronological event log of this dispatch (missed redraws are not judged here)
             pos = bitsv3(op[1])
@@ -806,9 +926,9 @@ def trip_oracle(case, impl):
                 ok = got is None or got == target       # after finish: the last target or None
             if not ok:
                 fails.append(("C17:query-target", f"op {i}: current_target is {got}, expected {target} (ongoing {ongoing})"))
-    if impl["used"] != 3 * total_cmds:
-        fails.append(("C17:draw-count", f"{impl['used']} draws consumed for {total_cmds} waypoints"))
-    return fails
+    if used != 3 * total_cmds:
+        fails.append(("C17:draw-count", f"{used} draws consumed for {total_cmds} waypoints"))
+    return [(sig, who + msg) for sig, msg in fails] if who else fails
 
 
 def trip_interesting(case, impl):
@@ -882,11 +1002,52 @@ def aim(r, ref, lattice, how):
         return off(tol / 2)
     if how == "outside":
         return off(2 * tol + 1.0)
+    if how == "close":
+        return off(tol * 0.875)              # still within the tolerance, by 1/8 of it
+    if how == "near":
+        return off(tol * 1.25)               # beyond the tolerance by a quarter of it (tol 0: on the target)
     return (r.uniform(-2000, 2000), r.uniform(-2000, 2000), r.uniform(3000, 4000))   # far
+
+
+DEFAULT_CFG = {"x": (-50.0, 50.0), "y": (-50.0, 50.0), "z": (0.0, 50.0), "tol": 1.0}   # RandomMobilityConfig()
+
+
+def gen_peers(seed, cfg, lattice, n_main_ops, how):
+    """further plugins built from the same configuration (see trip_run_impl), each with a short history of its
+    own aimed at its own waypoints, placed in between the ops of the first plugin"""
+    r = random.Random(stable_hash("trip-peers", seed))
+    n = r.choice([0, 1]) if how == "default" and r.random() < 0.3 else r.choice([1, 1, 2, 3])
+    draws, ops = [], []
+    for j in range(n):
+        k = r.randint(1, 8)
+        d = [r.choice(DYADIC_DRAWS) if lattice else r.random() for _ in range(3 * k + 3)]
+        ref = _Ref(cfg, d)
+        places = sorted(r.randrange(n_main_ops + 1) for _ in range(k))
+        for m, at in enumerate(places):
+            x = r.random()
+            if (m == 0 and x < 0.8) or x < 0.1:
+                op = ["initiate"]
+            elif x < 0.17:
+                op = ["finish"]
+            elif x < 0.85:
+                op = ["tel", v3bits(aim(r, ref, lattice, r.choice(["at", "boundary", "close", "near", "inside", "outside"])))]
+            elif x < 0.9:
+                op = ["travel"]
+            else:
+                op = [r.choice(["ongoing", "target"])]
+            ref.apply(op)
+            ops.append([at, j, op])
+        draws.append([fbits(v) for v in d])
+    ops.sort(key=lambda po: po[0])           # stable: every plugin keeps the order of its own ops
+    return {"n": n, "config": how, "main_at": r.randrange(n + 1), "draws": draws, "ops": ops}
 
 
 def gen_trip(seed, max_ops=40):
     r = random.Random(stable_hash("trip", seed))
+    r2 = random.Random(stable_hash("trip-fleet", seed))
+    # 40%: the plugin is one of several built from one configuration: the same object (a module-level constant
+    # used by every node's protocol), equal objects, or the constructor's default argument
+    how = r2.choice(["shared", "shared", "shared", "equal", "default"]) if r2.random() < 0.4 else None
     lattice = r.random() < 0.6
     cfg = {}
     for a in "xyz":
@@ -899,6 +1060,8 @@ def gen_trip(seed, max_ops=40):
             lo, hi = hi, lo                   # random.uniform accepts a reversed range
         cfg[a] = (lo, hi)
     cfg["tol"] = r.choice([0.0, 0.5, 1.0, 2.0, 2.0, 4.0, 10.0]) if lattice or r.random() < 0.5 else r.uniform(0.01, 20)
+    if how == "default":
+        cfg = dict(DEFAULT_CFG)
     n = r.randint(3, max_ops)
     draws = [r.choice(DYADIC_DRAWS) if (lattice or r.random() < 0.2) else r.random() for _ in range(3 * n + 6)]
     ref = _Ref(cfg, draws)
@@ -914,7 +1077,8 @@ def gen_trip(seed, max_ops=40):
         elif x < (0.4 if mode == "restart" else 0.22):
             op = ["finish"]
         elif x < 0.75:
-            hows = ["at", "at", "boundary", "inside", "outside", "far"] if mode != "arrivals" else ["at", "at", "inside", "boundary", "outside"]
+            hows = (["at", "at", "boundary", "inside", "outside", "far", "close", "near"] if mode != "arrivals" else
+                    ["at", "at", "inside", "boundary", "outside", "close", "near"])
             op = ["tel", v3bits(aim(r, ref, lattice, r.choice(hows)))]
         elif x < 0.8:
             op = ["travel"]
@@ -930,6 +1094,7 @@ def gen_trip(seed, max_ops=40):
                        for _ in range(r.randint(1, 4))]
             ops.insert(r.randrange(len(ops) + 1), ["hook", scripts])
     return {"kind": "randomtrip", **({"hooked": True} if hooked else {}),
+            **({"peers": gen_peers(seed, cfg, lattice, len(ops), how)} if how else {}),
             "cfg": {"x": [fbits(cfg["x"][0]), fbits(cfg["x"][1])], "y": [fbits(cfg["y"][0]), fbits(cfg["y"][1])],
                     "z": [fbits(cfg["z"][0]), fbits(cfg["z"][1])], "tol": fbits(cfg["tol"])},
             "draws": [fbits(d) for d in draws], "ops": ops}
@@ -938,7 +1103,7 @@ def gen_trip(seed, max_ops=40):
 def enum_trip(max_len):
     """every history of <= max_len ops over {initiate, finish, telemetry on / off the (reference)
     target, travel, the two queries}, dyadic box and draws"""
-    cfg = {"x": (-8.0, 8.0), "y": (0.0, 16.0), "z": (4.0, 4.0), "tol": 1.0}
+    cfg = {"x": (-8.0, 8.0), "y": (0.0, 16.0), "z": (4.0, 4.0), "tol": 2.0}
     draws = [DYADIC_DRAWS[(5 * i + 1) % 7] for i in range(3 * max_len + 6)]
     alphabet = ["initiate", "finish", "tel-at", "tel-far", "travel", "ongoing", "target"]
     jcfg = {a: [fbits(cfg[a][0]), fbits(cfg[a][1])] for a in "xyz"}
@@ -972,7 +1137,12 @@ class C17(Check):
     rule = ("boxes incl. degenerate lo = hi, dyadic and random bounds (4% reversed), tolerances incl. 0, histories of 3-40 ops "
             "of initiate / finish / telemetry (on target, exactly on the tolerance boundary on the lattice, inside, outside, "
             "far) / travel / queries in every order incl. query-before-start and initiate-initiate-finish, draws prescribed "
-            "through random.random / random.uniform (dyadic incl. 0 and 1-2^-53, or random); thorough: every history of <= 6 "
+            "through random.random / random.uniform (dyadic incl. 0 and 1-2^-53, or random); telemetry also at 7/8 and 5/4 of "
+            "the tolerance from the target; in 40% of the histories the plugin is one of 2-4 plugins (each on its own "
+            "protocol instance and provider, like the nodes of a swarm) built from one configuration — the same "
+            "RandomMobilityConfig object, equal objects or the constructor's default argument —, built before and after "
+            "it and driven by short histories of their own in between its ops; the direct predicate judges every plugin on "
+            "its own; thorough: every history of <= 6 "
             "ops over a 7-op alphabet; non-trivial = >= 2 initiates before a finish and >= 1 arrival")
     assumptions = ["lo <= hi for the in-box theorem (random.uniform also accepts a reversed range; the check then uses the "
                    "sorted bounds)", "0 <= u < 1 for every draw", "IEEE rounding of lo + (hi - lo) * u is not formalised (the "
@@ -985,7 +1155,9 @@ class C17(Check):
                   "for every scalar type. The number of trip closures in the dispatcher's telemetry chain (the model's "
                   "'registered handler' component) is read from the wrapper's private list for the correspondence only, and "
                   "skipped if that list is not there. Plugin calls made re-entrantly from foreign telemetry handlers are "
-                  "outside the model: ~12% of the generated histories exercise them against the direct predicate only. ")
+                  "outside the model: ~12% of the generated histories exercise them against the direct predicate only. "
+                  "The model describes one plugin: the further plugins built from the same configuration (40% of the "
+                  "histories) are judged by the direct predicate only, the plugin of the history by both. ")
     modelled = ["gradysim/protocol/plugin/random_mobility.py", "gradysim/protocol/plugin/dispatcher.py",
                 "gradysim/protocol/position.py (squared_distance)"]
     quick_n = 1500
@@ -1029,7 +1201,7 @@ class C17(Check):
         return trip_interesting(case, impl)
 
     def key(self, case, impl):
-        return json.dumps([case["cfg"], case["ops"], case["draws"][:impl["used"]]], sort_keys=True)
+        return json.dumps([case["cfg"], case["ops"], case["draws"][:impl["used"]], case.get("peers")], sort_keys=True)
 
     def sample(self, case, impl):
         return {"label": case.get("label"), "cfg": {k: (bitsf(v) if isinstance(v, str) else [bitsf(x) for x in v])
@@ -1049,6 +1221,21 @@ class C17(Check):
                     if ev[0] == "end":
                         inc("reentrant_" + ev[1])
         cfg = case["cfg"]
+        peers = case.get("peers")
+        if peers:
+            inc(f"histories_config_{peers['config']}_by_{peers['n'] + 1}_plugins")
+            for log in impl.get("peers", []):
+                on = False
+                for op, res in zip(log["ops"], log["results"]):
+                    inc("other_plugin_op_" + op[0])
+                    if op[0] == "initiate":
+                        on = True
+                    elif op[0] == "finish":
+                        on = False
+                    elif op[0] == "tel" and on:
+                        inc("other_plugin_tel_trip_" + ("redraw" if res["cmds"] else "quiet"))
+        if bitsf(cfg["tol"]) not in (0.0, 1.0):
+            inc("tolerance_not_0_or_1")
         if any(cfg[a][0] == cfg[a][1] for a in "xyz"):
             inc("box_with_degenerate_axis")
         if any(bitsf(cfg[a][0]) > bitsf(cfg[a][1]) for a in "xyz"):
@@ -1083,8 +1270,34 @@ class C17(Check):
             for i in range(len(best["ops"]) - 1, -1, -1):
                 cand = copy.deepcopy(best)
                 del cand["ops"][i]
+                for po in (cand.get("peers") or {}).get("ops", []):
+                    if po[0] > i:
+                        po[0] -= 1          # the other plugins' ops stay where they were relative to the rest
                 if still_fails(cand):
                     best, changed = cand, True
+            if best.get("hooked") and not any(op[0] == "hook" for op in best["ops"]):
+                cand = copy.deepcopy(best)
+                del cand["hooked"]
+                if still_fails(cand):
+                    best, changed = cand, True
+            peers = best.get("peers")
+            if peers:
+                cand = copy.deepcopy(best)
+                del cand["peers"]
+                if peers["config"] != "default" and still_fails(cand):
+                    best, changed = cand, True
+                    continue
+                for i in range(len(peers["ops"]) - 1, -1, -1):
+                    cand = copy.deepcopy(best)
+                    del cand["peers"]["ops"][i]
+                    if still_fails(cand):
+                        best, changed = cand, True
+                if best["peers"]["n"] > 0 and not any(po[1] == best["peers"]["n"] - 1 for po in best["peers"]["ops"]):
+                    cand = copy.deepcopy(best)           # the last-built other plugin does nothing: leave it out
+                    cand["peers"]["n"] -= 1
+                    cand["peers"]["draws"] = cand["peers"]["draws"][:cand["peers"]["n"]]
+                    if still_fails(cand):
+                        best, changed = cand, True
         return best
 
 
